@@ -10,7 +10,7 @@ for fn in os.listdir(src):
     if os.path.isfile(p) and os.path.getsize(p) < 300000 and not fn.endswith(".log") and not fn.startswith("magog"):
         shutil.copy(p, os.path.join(dst, fn))
 json.dump({"id": sid, "property": prop, "breaks": breaks, "needs_to_manifest": needs,
-           "source": "independent sub-agent given only the property text and a scratch worktree (round 12)",
+           "source": "independent sub-agent given only the property text and a scratch worktree (rounds 12-13)",
            "confirmed": "applied in a scratch worktree by tools/seedtest.sh: go build (with and without -tags verif) ok, unchanged suite passes; demonstration fails with the change and passes without it (run by the sub-agent, re-run here where noted)",
            "checks_run": ran, "result": result}, open(os.path.join(dst, "meta.json"), "w"), indent=1)
 print("recorded", dst, sorted(os.listdir(dst)))
